@@ -306,6 +306,11 @@ def empties(seed):
     add("empty field values: last and middle", control=[("Package", x), ("Description", ""), ("Version", "1"), ("X-Empty", "")])
     add("empty field values: first, and before a multi-line value", scripts=[("prerm", b"")],
         control=[("Package", ""), ("Version", "1"), ("Depends", ""), ("Description", "s\n long")])
+    # the control file is read as bytes, where only LF / CR end a line: the characters at which str.splitlines() also cuts are
+    # ordinary characters of a value, also when a blank follows them
+    add("control values with form feed, vertical tab, U+0085, U+2028 followed by a blank",
+        control=[("Package", x), ("Version", "1"), ("Comment", "a\x0c b"), ("X-Sep", "c\u2028 d\x85 e\x1c f"),
+                 ("Description", "s\n l\x0b more\n \u2029 z")])
     add("control file without fields", control=[], data=[])
     add("everything empty", control=[("Package", ""), ("Version", "")], scripts=[(n, b"") for n in db.SCRIPTS], md5="empty",
         data=[(names[0], b""), (names[1], b""), (names[2], b"")])
